@@ -112,3 +112,49 @@ func ZZ_C03_isolation() {
 	}
 	vrt.Reach("end")
 }
+
+func zzKey1(name string, alpha byte) []byte {
+	b := vrt.Bytes(name, 1)
+	vrt.Assume(vrt.And(b[0]&0x0f < alpha, b[0]>>4 < alpha))
+	return b
+}
+
+// ZZ_C03_merge_then_write: a snapshot deletes a key (which may merge a branch with its only
+// remaining child) and then writes another key; the original trie must still show exactly its
+// own three keys.
+func ZZ_C03_merge_then_write() {
+	alpha := byte(vrt.Param("alpha", 3))
+	base := NewEmptyTrie()
+	var keys [][]byte
+	for i := 0; i < 3; i++ {
+		k := zzKey1("k"+string(rune('0'+i)), alpha)
+		if i > 0 {
+			vrt.Assume(keys[i-1][0] < k[0])
+		}
+		vrt.Assert("put_ok", base.Put(k, []byte{byte(i + 1)}) == nil)
+		keys = append(keys, k)
+	}
+	rootBefore := base.MustHash()
+	s := base.Snapshot()
+	other := base.Snapshot()
+	vrt.Assert("delete_ok", s.Delete(keys[vrt.Choice("del", 3)]) == nil)
+	w := zzKey1("w", alpha)
+	vrt.Assert("put_ok", s.Put(w, []byte{0x77}) == nil)
+	if vrt.Bool("second_delete") {
+		vrt.Assert("delete_ok", s.Delete(keys[vrt.Choice("del2", 3)]) == nil)
+	}
+	_ = s.MustHash()
+	for _, view := range []*InMemoryTrie{base, other} {
+		for i, k := range keys {
+			g := view.Get(k)
+			vrt.Assert("original_keys_intact", len(g) == 1 && g[0] == byte(i+1))
+		}
+		isBase := vrt.Or(vrt.BytesEq(w, keys[0]), vrt.Or(vrt.BytesEq(w, keys[1]), vrt.BytesEq(w, keys[2])))
+		if !isBase { // forks
+			vrt.Assert("foreign_write_invisible", view.Get(w) == nil)
+		}
+		vrt.Assert("entry_count_unchanged", len(view.Entries()) == 3)
+		vrt.Assert("root_unchanged", view.MustHash() == rootBefore)
+	}
+	vrt.Reach("end")
+}
